@@ -285,6 +285,22 @@ def body(prop, args, seed, t0):
                 return 2
         # --- T9 end
 
+        # --- T10: the symbolic-expression translator of the built-in gate matrices (harness/translate_t10.py -> OQ/Generated/
+        # TranslatedC02.lean, tied to Model/Gates.lean by Props/C02_TranslatedMatrices.lean): every regenerated `tr_<factory>` and the
+        # gate -> factory binding are evaluated over Q(zeta8) in the driver (tag "TRT10") and compared with the Python factories
+        if prop == "C02" and driver.available() and (build_ok or common.lake_build(["oqdriver"])[0]):
+            from harness import translated_check_t10 as _t10
+            n10, bad10, untr10, listed10 = _t10.run(seed)
+            tie["translated_matrices_vs_python_factories"] = n10
+            tie["translated_functions"] = list(tie.get("translated_functions", [])) + listed10
+            tie["untranslatable_now"] = list(tie.get("untranslatable_now", [])) + untr10
+            if bad10:
+                for b in bad10[:10]:
+                    print("  translator disagreement (gate matrices):", b[:400])
+                print(f"INTERNAL-ERROR property={prop} (the Python->Lean translation of the gate matrices misrenders the code; no verdict)")
+                return 2
+        # --- T10 end
+
     except Exception as e:  # noqa: BLE001
         import traceback
         tie = dict(tie, self_check_crashed=f"{type(e).__name__}: {e}"[:300])
